@@ -25,7 +25,10 @@ def r3_2_size(ctx, prog):
         r = C.expr_of(pa, pa.ret)
         size = r[1][2] if isinstance(r[1], tuple) and len(r[1]) > 2 else None
         chk = pa.calls_to(r"common::check_buffer_boundaries$")
-        ok = isinstance(size, tuple) and size[0] == "op:Add" and size[1] == 20 and "msg_length" in repr(size[2])
+        # 20 + msg_length, the 20 being the constant or the size MessageHeader::decode returned (always 20: R2.10)
+        hdr = (("MessageHeader::decode", "top:buffer"), ".ok.1")
+        ok = isinstance(size, tuple) and size[0] == "op:Add" and len(size) == 3 and \
+            ((size[1] in (20, hdr) and "msg_length" in repr(size[2])) or (size[2] in (20, hdr) and "msg_length" in repr(size[1])))
         ok = ok and any(C.expr_of(pa, c[2][1]) == size and "top:buffer" in repr(c[2][0]) for c in chk)
         ctx.ob("R3.2", "raw-message-size", ok, "RawMessage::decode returns size %s, checked: %s" % (size, [repr(C.expr_of(pa, c[2][1]))[:60] for c in chk]), info["where"],
                replay=pa.describe())
